@@ -1,5 +1,6 @@
 import QcoVerif.Properties.C07
 import QcoVerif.Lemmas.ScanSrc
+import QcoVerif.Lemmas.FacadeSrc
 /-
   C07 — tie to the SOURCE TEXT (DESIGN.md §2.3b).  Kept in a file of its own that nothing imports: a change of the translated
   source functions breaks THESE obligations only, not the build of the property files that import Properties/C07.lean.
@@ -56,5 +57,19 @@ theorem registry_scan_matches_source (ops : List (Option (Nat × Int))) (m : Nat
 
 end SourceTie
 
+
+
+/-! ### the facade `DeclarativeCircuit` as written (Lemmas/FacadeSrc.lean; DESIGN.md §2.3b) -/
+
+section Facade
+open Qco.Py Qco.Gen.PySrc Qco.BuilderSrc Qco.FacadeSrc
+
+/-- the transfer table `add_sub_circuit` hands to `copy`: one pair, sub-circuit ↦ own structure. -/
+theorem facade_add_sub_circuit_lookup (sub st : Val) :
+    eval builderEnv (Vars.set (Vars.set [] "self" (declObj 1 st addedObj regObj)) "operation" sub)
+      (.call "dict_of" [.name "operation", .attr (.name "self") "_structure"]) = .list [.tuple [sub, st]] :=
+  FacadeSrc.add_sub_circuit_lookup sub st
+
+end Facade
 
 end Qco.C07
